@@ -76,11 +76,16 @@ func mutexKey(c ssa.CallInstruction) (key string, op string) {
 		return "", ""
 	}
 	id := funcID(ce.Obj)
+	shared := false
 	switch id {
-	case "sync.Mutex.Lock", "sync.RWMutex.Lock", "sync.RWMutex.RLock":
+	case "sync.Mutex.Lock", "sync.RWMutex.Lock":
 		op = "lock"
-	case "sync.Mutex.Unlock", "sync.RWMutex.Unlock", "sync.RWMutex.RUnlock":
+	case "sync.RWMutex.RLock":
+		op, shared = "lock", true
+	case "sync.Mutex.Unlock", "sync.RWMutex.Unlock":
 		op = "unlock"
+	case "sync.RWMutex.RUnlock":
+		op, shared = "unlock", true
 	default:
 		return "", ""
 	}
@@ -88,7 +93,13 @@ func mutexKey(c ssa.CallInstruction) (key string, op string) {
 	if len(args) == 0 {
 		return "", ""
 	}
-	return addrKey(args[0]), op
+	k := addrKey(args[0])
+	if k != "" && shared {
+		// a read lock excludes writers only: it is a different (weaker) token than the exclusive lock; readers
+		// accept either, writers need the exclusive one (sharedKey / lockFor in the rules)
+		k += sharedSuffix
+	}
+	return k, op
 }
 
 // addrKey names an address by type and field (or global): &x.mu → "pkg.T.mu".
@@ -360,4 +371,25 @@ func closesAfter(ins ssa.Instruction, chKey string) bool {
 		return isB && bi.Name() == "close" && addrKey(c.Call.Args[0]) == chKey
 	}
 	return reachAvoiding(ins, nil, isReturn, isClose) == nil
+}
+
+const sharedSuffix = "#R"
+
+// lockFor adapts a held lockset to an access: a read is protected by the exclusive or the shared token of a
+// mutex, a write only by the exclusive one.
+func lockFor(ls LockSet, write bool) LockSet {
+	out := LockSet{}
+	for k, v := range ls {
+		if !v {
+			continue
+		}
+		if strings.HasSuffix(k, sharedSuffix) {
+			if !write {
+				out[strings.TrimSuffix(k, sharedSuffix)] = true
+			}
+			continue
+		}
+		out[k] = true
+	}
+	return out
 }
